@@ -10,6 +10,12 @@ Expressions are emitted in postfix form as `List (String × Int × Nat)`:
   ("-" "+" "*" "/" "neg" "abs" "<" "<=" ">" ">=" "==" "!=" "not", 0, 1)   operators (arity 2, `neg abs not` 1)
 A function body that is a cascade `if g: return e … return e_last` (statements that only report / print are
 skipped) is emitted as `List (guard × value)`, the last guard being `#true`.
+Text normalisation (round 6b) — only statement-level edits change a table: comments, docstrings, blank lines and
+print / report statements are not seen; type annotations (arguments, `->`, `x: T = v`) are dropped; every local name
+(parameters other than self, assigned names, loop / lambda / nested-def names) is renamed `v0, v1, …` in order of first
+appearance before a statement list is printed; literals and default arguments are printed by `ast.unparse` (so
+`0.10`, `"SLSQP"` and `'SLSQP'` are the same); inside a guard expression a parameter reads `<argN>` and a local that
+is assigned once reads as its defining expression (`<ClassName>` when that is a constructor call).
 No logic beyond this syntactic translation: what the expressions *mean* is the Lean side's business
 (`CBV.C13.parseRPN`, `Expr.eval`), and `Props/C13.lean` proves that the model's own functions are those meanings.
 """
@@ -39,7 +45,7 @@ def _num(v: Any) -> Tok:
     return ("#", fr.numerator, fr.denominator)
 
 
-def rpn(node: ast.AST, consts: dict) -> List[Tok]:
+def rpn(node: ast.AST, consts: dict, res=None) -> List[Tok]:
     if isinstance(node, ast.Constant):
         if isinstance(node.value, bool):
             return [("#true" if node.value else "#false", 0, 1)]
@@ -49,20 +55,138 @@ def rpn(node: ast.AST, consts: dict) -> List[Tok]:
     if isinstance(node, ast.Name) and node.id in consts:
         return [_num(consts[node.id])]
     if isinstance(node, (ast.Name, ast.Attribute, ast.Subscript)):
-        return [("$" + ast.unparse(node), 0, 1)]
+        return [("$" + _atom(node, res), 0, 1)]
     if isinstance(node, ast.Call):
         if isinstance(node.func, ast.Name) and node.func.id == "abs" and len(node.args) == 1 and not node.keywords:
-            return rpn(node.args[0], consts) + [("abs", 0, 1)]
-        return [("$" + ast.unparse(node), 0, 1)]
+            return rpn(node.args[0], consts, res) + [("abs", 0, 1)]
+        return [("$" + _atom(node, res), 0, 1)]
     if isinstance(node, ast.BinOp) and type(node.op) in _BIN:
-        return rpn(node.left, consts) + rpn(node.right, consts) + [(_BIN[type(node.op)], 0, 1)]
+        return rpn(node.left, consts, res) + rpn(node.right, consts, res) + [(_BIN[type(node.op)], 0, 1)]
     if isinstance(node, ast.UnaryOp) and isinstance(node.op, ast.USub):
-        return rpn(node.operand, consts) + [("neg", 0, 1)]
+        return rpn(node.operand, consts, res) + [("neg", 0, 1)]
     if isinstance(node, ast.UnaryOp) and isinstance(node.op, ast.Not):
-        return rpn(node.operand, consts) + [("not", 0, 1)]
+        return rpn(node.operand, consts, res) + [("not", 0, 1)]
     if isinstance(node, ast.Compare) and len(node.ops) == 1 and type(node.ops[0]) in _CMP:
-        return rpn(node.left, consts) + rpn(node.comparators[0], consts) + [(_CMP[type(node.ops[0])], 0, 1)]
+        return rpn(node.left, consts, res) + rpn(node.comparators[0], consts, res) + [(_CMP[type(node.ops[0])], 0, 1)]
     raise ValueError(f"expression outside the translated fragment: {ast.unparse(node)}")
+
+
+def _atom(node: ast.AST, res) -> str:
+    import copy
+
+    return ast.unparse(res(copy.deepcopy(node)) if res is not None else node)
+
+
+def _params(fn: ast.FunctionDef) -> List[str]:
+    a = fn.args
+    return [x.arg for x in a.posonlyargs + a.args + a.kwonlyargs if x.arg not in ("self", "cls")]
+
+
+def resolver(fn: ast.FunctionDef):
+    """inside a guard: parameter -> `<argN>`, local assigned exactly once -> its defining expression
+    (`<ClassName>` for a constructor call), so that renaming a local or a parameter does not change the atom"""
+    import copy
+
+    params = _params(fn)
+    defs: dict = {}
+    for n in ast.walk(fn):
+        if isinstance(n, ast.Assign) and len(n.targets) == 1 and isinstance(n.targets[0], ast.Name):
+            defs.setdefault(n.targets[0].id, []).append(n.value)
+        elif isinstance(n, ast.AnnAssign) and isinstance(n.target, ast.Name) and n.value is not None:
+            defs.setdefault(n.target.id, []).append(n.value)
+
+    def res(node: ast.AST, depth: int = 0) -> ast.AST:
+        class T(ast.NodeTransformer):
+            def visit_Name(self, n):
+                if n.id in params:
+                    return ast.Name(id=f"<arg{params.index(n.id) + 1}>", ctx=ast.Load())
+                if len(defs.get(n.id, [])) == 1 and depth < 4:
+                    v = defs[n.id][0]
+                    if isinstance(v, ast.Call) and isinstance(v.func, ast.Name) and v.func.id[:1].isupper():
+                        return ast.Name(id=f"<{v.func.id}>", ctx=ast.Load())
+                    return res(copy.deepcopy(v), depth + 1)
+                return n
+
+        return T().visit(node)
+
+    return res
+
+
+def normalised(fn: ast.FunctionDef) -> ast.FunctionDef:
+    """a copy with the annotations dropped and every local name renamed v0, v1, … in order of first appearance"""
+    import copy
+
+    fn = copy.deepcopy(fn)
+    names: List[str] = []
+
+    def add(n: str) -> None:
+        if n not in names and n not in ("self", "cls"):
+            names.append(n)
+
+    class Collect(ast.NodeVisitor):
+        def _args(self, a: ast.arguments) -> None:
+            for x in a.posonlyargs + a.args + ([a.vararg] if a.vararg else []) + a.kwonlyargs + ([a.kwarg] if a.kwarg else []):
+                add(x.arg)
+
+        def visit_FunctionDef(self, node):
+            if node is not fn:
+                add(node.name)
+            self._args(node.args)
+            for st in node.body:
+                self.visit(st)
+
+        def visit_Lambda(self, node):
+            self._args(node.args)
+            self.visit(node.body)
+
+        def visit_Name(self, node):
+            if isinstance(node.ctx, ast.Store):
+                add(node.id)
+
+        def visit_ExceptHandler(self, node):
+            if node.name:
+                add(node.name)
+            self.generic_visit(node)
+
+    Collect().visit(fn)
+    new = {n: f"v{k}" for k, n in enumerate(names)}
+
+    class Rename(ast.NodeTransformer):
+        def visit_Name(self, n):
+            n.id = new.get(n.id, n.id)
+            return n
+
+        def visit_arg(self, n):
+            n.arg = new.get(n.arg, n.arg)
+            n.annotation = None
+            return n
+
+        def visit_FunctionDef(self, n):
+            if n is not fn:
+                n.name = new.get(n.name, n.name)
+            n.returns = None
+            self.generic_visit(n)
+            return n
+
+        def visit_AnnAssign(self, n):
+            self.generic_visit(n)
+            if n.value is None:
+                return None
+            return ast.copy_location(ast.Assign(targets=[n.target], value=n.value), n)
+
+        def visit_ExceptHandler(self, n):
+            if n.name:
+                n.name = new.get(n.name, n.name)
+            self.generic_visit(n)
+            return n
+
+    fn = Rename().visit(fn)
+    ast.fix_missing_locations(fn)
+    return fn
+
+
+def body_text(obj) -> List[str]:
+    return _stmts(normalised(_fn(obj)).body)
 
 
 def _fn(obj) -> ast.FunctionDef:
@@ -134,12 +258,6 @@ def _stmts(body: List[ast.stmt]) -> List[str]:
     return out
 
 
-def _defaults(fn: ast.FunctionDef) -> List[Tuple[str, str]]:
-    args = fn.args.args
-    ds = fn.args.defaults
-    return [(a.arg, ast.unparse(d)) for a, d in zip(args[len(args) - len(ds):], ds)]
-
-
 def _first(fn: ast.AST, pred):
     for n in ast.walk(fn):
         if pred(n):
@@ -158,76 +276,98 @@ def emit_all(emit):
     consts = _constants()
     TOK = "List (String × Int × Nat)"
     CAS = f"List ({TOK} × {TOK})"
+    guard = getattr(emit, "guard", lambda fn, *a, **k: fn(*a, **k))
 
+    # ---- plain value tables first (read from the imported package, no ast)
     emit("c13Consts", "List (String × Int × Nat)", [(k, *_num(v)[1:]) for k, v in consts.items()],
          "util.constants TOL, VSMALL, VBIG (decimal meaning of the literal)")
+    emit("c13Methods", "List String", list(typing.get_args(om.MinimizationMethodType)), "MinimizationMethodType")
 
-    # ---- ClampOptimizationData
-    emit("c13SrcReporterImprovement", CAS, cascade(it.ClampOptimizationData.improvement, consts),
-         "ClampOptimizationData.improvement")
-    emit("c13SrcReporterFields", "List (String × String)",
-         [(f.name, "" if f.default is dataclasses.MISSING else ast.unparse(ast.parse(repr(f.default)).body[0].value))
-          for f in dataclasses.fields(it.ClampOptimizationData)],
-         "dataclass fields of ClampOptimizationData with their defaults, in order")
+    def value_defaults():
+        sig = inspect.signature(om.OptimizerBase.optimize)
+        mi = sig.parameters["max_iterations"].default
+        emit("c13DefaultMaxIterations", "Nat", int(mi), "optimize(max_iterations=…)")
+        dtol = Fraction(repr(sig.parameters["tolerance"].default))
+        emit("c13DefaultTolerance", "Int × Nat", (dtol.numerator, dtol.denominator), "optimize(tolerance=…)")
+        for name, fn in (("c13SrcOptimizeDefaults", om.OptimizerBase.optimize), ("c13SrcAutoOptimizeDefaults", om.SketchOptimizer.auto_optimize)):
+            ps = inspect.signature(fn).parameters
+            emit(name, "List (String × String)", [(k, repr(p.default)) for k, p in ps.items() if p.default is not inspect.Parameter.empty],
+                 f"default arguments of {fn.__qualname__} (repr of the values)")
+
+    guard(value_defaults)
+    guard(lambda: emit("c13SrcReporterFields", "List (String × String)",
+                       [(f.name, "" if f.default is dataclasses.MISSING else repr(f.default)) for f in dataclasses.fields(it.ClampOptimizationData)],
+                       "dataclass fields of ClampOptimizationData with their defaults, in order"))
+
+    # ---- ast groups, each on its own: one method outside the translated fragment does not remove the others
+    def cas(name, obj, doc):
+        guard(lambda: emit(name, CAS, cascade(obj, consts), doc))
+
+    def body(name, obj, doc):
+        guard(lambda: emit(name, "List String", body_text(obj), doc + " (locals renamed, annotations dropped)"))
+
+    cas("c13SrcReporterImprovement", it.ClampOptimizationData.improvement, "ClampOptimizationData.improvement")
     for name in ("undo", "rollback", "skip"):
-        emit("c13SrcReporter" + name.capitalize(), "List String", _stmts(_fn(getattr(it.ClampOptimizationData, name)).body),
-             f"ClampOptimizationData.{name}")
+        body("c13SrcReporter" + name.capitalize(), getattr(it.ClampOptimizationData, name), f"ClampOptimizationData.{name}")
 
-    # ---- IterationData / IterationDriver
-    emit("c13SrcIterImprovement", CAS, cascade(it.IterationData.improvement, consts), "IterationData.improvement")
-    emit("c13SrcInitialImprovement", CAS, cascade(it.IterationDriver.initial_improvement, consts),
-         "IterationDriver.initial_improvement")
-    emit("c13SrcLastImprovement", CAS, cascade(it.IterationDriver.last_improvement, consts),
-         "IterationDriver.last_improvement")
-    emit("c13SrcConverged", CAS, cascade(it.IterationDriver.converged, consts), "IterationDriver.converged")
-    emit("c13SrcIterInit", "List String", _stmts(_fn(it.IterationData.__init__).body), "IterationData.__init__")
-    emit("c13SrcBeginIteration", "List String", _stmts(_fn(it.IterationDriver.begin_iteration).body),
-         "IterationDriver.begin_iteration")
-    emit("c13SrcEndIteration", "List String", _stmts(_fn(it.IterationDriver.end_iteration).body),
-         "IterationDriver.end_iteration")
+    cas("c13SrcIterImprovement", it.IterationData.improvement, "IterationData.improvement")
+    cas("c13SrcInitialImprovement", it.IterationDriver.initial_improvement, "IterationDriver.initial_improvement")
+    cas("c13SrcLastImprovement", it.IterationDriver.last_improvement, "IterationDriver.last_improvement")
+    cas("c13SrcConverged", it.IterationDriver.converged, "IterationDriver.converged")
+    body("c13SrcIterInit", it.IterationData.__init__, "IterationData.__init__")
+    body("c13SrcDriverInit", it.IterationDriver.__init__, "IterationDriver.__init__")
+    body("c13SrcBeginIteration", it.IterationDriver.begin_iteration, "IterationDriver.begin_iteration")
+    body("c13SrcEndIteration", it.IterationDriver.end_iteration, "IterationDriver.end_iteration")
 
     # ---- OptimizerBase.optimize_clamp
-    oc = _fn(om.OptimizerBase.optimize_clamp)
-    tr = _first(oc, lambda n: isinstance(n, ast.Try))
-    test = _first(tr, lambda n: isinstance(n, ast.If)).test
-    emit("c13SrcRollbackTest", TOK, rpn(test, consts), "the `if` inside the try block of optimize_clamp")
-    emit("c13SrcOptimizeClamp", "List String", _stmts(oc.body), "OptimizerBase.optimize_clamp, statement by statement")
-    emit("c13SrcClampExcept", "List String", [ast.unparse(h.type) if h.type is not None else "" for h in tr.handlers],
-         "exception classes optimize_clamp catches")
-    mz = _first(tr, lambda n: isinstance(n, ast.Call) and ast.unparse(n.func) == "scipy.optimize.minimize")
-    emit("c13SrcMinimizeArgs", "List String", [ast.unparse(a) for a in mz.args] + [f"{k.arg}={ast.unparse(k.value)}" for k in mz.keywords],
-         "arguments of the scipy.optimize.minimize call")
+    def clamp_test():
+        oc = _fn(om.OptimizerBase.optimize_clamp)
+        tr = _first(oc, lambda n: isinstance(n, ast.Try))
+        test = _first(tr, lambda n: isinstance(n, ast.If)).test
+        emit("c13SrcRollbackTest", TOK, rpn(test, consts, resolver(oc)), "the `if` inside the try block of optimize_clamp")
+
+    def clamp_details():
+        oc = normalised(_fn(om.OptimizerBase.optimize_clamp))
+        tr = _first(oc, lambda n: isinstance(n, ast.Try))
+        emit("c13SrcClampExcept", "List String", [ast.unparse(h.type) if h.type is not None else "" for h in tr.handlers],
+             "exception classes optimize_clamp catches")
+        mz = _first(tr, lambda n: isinstance(n, ast.Call) and ast.unparse(n.func) == "scipy.optimize.minimize")
+        emit("c13SrcMinimizeArgs", "List String", [ast.unparse(a) for a in mz.args] + [f"{k.arg}={ast.unparse(k.value)}" for k in mz.keywords],
+             "arguments of the scipy.optimize.minimize call (locals renamed as in c13SrcOptimizeClamp)")
+
+    guard(clamp_test)
+    guard(clamp_details)
+    body("c13SrcOptimizeClamp", om.OptimizerBase.optimize_clamp, "OptimizerBase.optimize_clamp, statement by statement")
 
     # ---- _get_sensitivity, optimize_iteration, optimize
-    gs = _fn(om.OptimizerBase._get_sensitivity)
-    emit("c13SrcSensitivity", "List String", _stmts(gs.body), "OptimizerBase._get_sensitivity")
-    fp = _first(gs, lambda n: isinstance(n, ast.Call) and ast.unparse(n.func) == "scipy.optimize.approx_fprime")
-    eps = [k.value for k in fp.keywords if k.arg == "epsilon"]
-    emit("c13SrcProbeEpsilon", TOK, rpn(eps[0], consts) if eps else [], "epsilon of the approx_fprime call")
-    oi = _fn(om.OptimizerBase.optimize_iteration)
-    emit("c13SrcOptimizeIteration", "List String", _stmts(oi.body), "OptimizerBase.optimize_iteration")
-    srt = _first(oi, lambda n: isinstance(n, ast.Call) and isinstance(n.func, ast.Name) and n.func.id == "sorted")
-    emit("c13SrcSortedReverse", "List String", [f"{k.arg}={ast.unparse(k.value)}" for k in srt.keywords if k.arg != "key"],
-         "keywords of the sorted() call other than key")
-    op = _fn(om.OptimizerBase.optimize)
-    emit("c13SrcOptimize", "List String", [s for s in _stmts(op.body) if "time.time()" not in s], "OptimizerBase.optimize (timing dropped)")
-    emit("c13SrcOptimizeDefaults", "List (String × String)", _defaults(op), "default arguments of optimize")
-    emit("c13SrcAutoOptimizeDefaults", "List (String × String)", _defaults(_fn(om.SketchOptimizer.auto_optimize)),
-         "default arguments of auto_optimize")
-    dmi = dict(_defaults(op)).get("max_iterations", "0")
-    emit("c13DefaultMaxIterations", "Nat", int(dmi) if dmi.isdigit() else 0, "optimize(max_iterations=…)")
-    dtol = Fraction(dict(_defaults(op)).get("tolerance", "0"))
-    emit("c13DefaultTolerance", "Int × Nat", (dtol.numerator, dtol.denominator), "optimize(tolerance=…)")
-    emit("c13Methods", "List String", list(typing.get_args(om.MinimizationMethodType)), "MinimizationMethodType")
-    emit("c13SrcDriverInit", "List String", _stmts(_fn(it.IterationDriver.__init__).body), "IterationDriver.__init__")
+    def probe_eps():
+        gs = _fn(om.OptimizerBase._get_sensitivity)
+        fp = _first(gs, lambda n: isinstance(n, ast.Call) and ast.unparse(n.func) == "scipy.optimize.approx_fprime")
+        eps = [k.value for k in fp.keywords if k.arg == "epsilon"]
+        emit("c13SrcProbeEpsilon", TOK, rpn(eps[0], consts, resolver(gs)) if eps else [], "epsilon of the approx_fprime call")
+
+    def sorted_kw():
+        oi = _fn(om.OptimizerBase.optimize_iteration)
+        srt = _first(oi, lambda n: isinstance(n, ast.Call) and isinstance(n.func, ast.Name) and n.func.id == "sorted")
+        emit("c13SrcSortedReverse", "List String", [f"{k.arg}={ast.unparse(k.value)}" for k in srt.keywords if k.arg != "key"],
+             "keywords of the sorted() call other than key")
+
+    guard(probe_eps)
+    guard(sorted_kw)
+    body("c13SrcSensitivity", om.OptimizerBase._get_sensitivity, "OptimizerBase._get_sensitivity")
+    body("c13SrcOptimizeIteration", om.OptimizerBase.optimize_iteration, "OptimizerBase.optimize_iteration")
+    guard(lambda: emit("c13SrcOptimize", "List String", [s for s in body_text(om.OptimizerBase.optimize) if "time.time()" not in s],
+                       "OptimizerBase.optimize (timing dropped; locals renamed, annotations dropped)"))
 
     # ---- GridBase.update / clamps / get_junction_from_clamp, backports
-    up = _fn(GridBase.update)
-    emit("c13SrcGridUpdate", "List String", _stmts(up.body), "GridBase.update")
-    emit("c13SrcUpdateGuard", TOK, rpn(_first(up, lambda n: isinstance(n, ast.If)).test, consts),
-         "the guard of GridBase.update that chooses grid quality over junction quality")
-    emit("c13SrcGridClamps", "List String", _stmts(_fn(GridBase.clamps).body), "GridBase.clamps")
-    emit("c13SrcJunctionFromClamp", "List String", _stmts(_fn(GridBase.get_junction_from_clamp).body),
-         "GridBase.get_junction_from_clamp")
-    emit("c13SrcBackportMesh", "List String", _stmts(_fn(om.MeshOptimizer.backport).body), "MeshOptimizer.backport")
-    emit("c13SrcBackportSketch", "List String", _stmts(_fn(om.SketchOptimizer.backport).body), "SketchOptimizer.backport")
+    def update_guard():
+        up = _fn(GridBase.update)
+        emit("c13SrcUpdateGuard", TOK, rpn(_first(up, lambda n: isinstance(n, ast.If)).test, consts, resolver(up)),
+             "the guard of GridBase.update that chooses grid quality over junction quality")
+
+    guard(update_guard)
+    body("c13SrcGridUpdate", GridBase.update, "GridBase.update")
+    body("c13SrcGridClamps", GridBase.clamps, "GridBase.clamps")
+    body("c13SrcJunctionFromClamp", GridBase.get_junction_from_clamp, "GridBase.get_junction_from_clamp")
+    body("c13SrcBackportMesh", om.MeshOptimizer.backport, "MeshOptimizer.backport")
+    body("c13SrcBackportSketch", om.SketchOptimizer.backport, "SketchOptimizer.backport")
